@@ -478,14 +478,22 @@ func cliTbsGen(c *engine.C) engine.Case {
 
 func cliTodoGen(c *engine.C) engine.Case {
 	toks := c17Tokens()
-	n := 1 + c.Choose(3, "len")
+	n := []int{2, 1, 3}[c.Choose(3, "len")]
 	var lines []string
+	prevKind := ""
 	for i := 0; i < n; i++ {
-		tk := toks[(c.Choose(len(toks), fmt.Sprintf("t%d", i))+i)%len(toks)]
+		// defaults: a block TODO followed by a hash TODO, so that one deviation puts two todos on one line
+		tk := toks[(c.Choose(len(toks), fmt.Sprintf("t%d", i))+i+2)%len(toks)]
 		if tk.Kind == "unterminated" {
 			tk = toks[0]
 		}
-		lines = append(lines, tk.Text)
+		// two comments starting on one line (never after a line / hash comment, which swallows the rest of its line)
+		if i > 0 && (prevKind == "block" || prevKind == "code" || prevKind == "literal") && !strings.Contains(lines[len(lines)-1], "\n") && c.Bool(fmt.Sprintf("j%d-same-line", i)) {
+			lines[len(lines)-1] += " " + tk.Text
+		} else {
+			lines = append(lines, tk.Text)
+		}
+		prevKind = tk.Kind
 	}
 	ext := c.Choose(3, "ext")
 	return func() engine.Result {
@@ -544,7 +552,7 @@ func cliEvaluateGen(c *engine.C) engine.Case {
 	return func() engine.Result {
 		var files []FileSpec
 		for _, cls := range classes {
-			files = append(files, FileSpec{Path: "src/" + cls.Name + ".java", Content: jgPrint(cls, layout)})
+			files = append(files, FileSpec{Path: c18Path(cls), Content: jgPrint(cls, layout)})
 		}
 		res := engine.Result{InputKey: filesKey(files), Input: filesInput(files), Nontrivial: true}
 		if why := validateJava(files); why != "" {
